@@ -62,6 +62,9 @@ pub struct Step {
     call: Call,
     /// the server answers this request only after one virtual hour (only meaningful without own timeout)
     slow: bool,
+    /// the server never answers this request (only with an own timeout): the operation times out
+    #[serde(default)]
+    silent: bool,
 }
 
 #[derive(Clone, Debug, Serialize, Deserialize)]
@@ -141,9 +144,10 @@ fn call() -> BoxedStrategy<Call> {
 }
 
 fn strat(_: &Ctx) -> BoxedStrategy<Case> {
-    let step = (0u8..2, mods(), call(), proptest::bool::weighted(0.3)).prop_map(|(handle, mods, call, slow)| {
+    let step = (0u8..2, mods(), call(), proptest::bool::weighted(0.3), proptest::bool::weighted(0.5)).prop_map(|(handle, mods, call, slow, silent)| {
         let slow = slow && mods.timeout_ms.is_none();
-        Step { handle, mods, call, slow }
+        let silent = silent && mods.timeout_ms.is_some() && !matches!(call, Call::Abandon { .. } | Call::Unbind);
+        Step { handle, mods, call, slow, silent }
     });
     (vec(step, 1..=10), any::<bool>(), any::<u64>()).prop_map(|(steps, unbind_last, sched)| Case { steps, unbind_last, sched }).boxed()
 }
@@ -290,10 +294,11 @@ async fn run_step(ldap: &mut Ldap, step: &Step) -> StepObs {
 pub fn check(case: &Case, obs: &mut Obs) -> Result<(), Fail> {
     let mut steps = case.steps.clone();
     if case.unbind_last {
-        steps.push(Step { handle: 0, mods: Mods::default(), call: Call::Unbind, slow: false });
+        steps.push(Step { handle: 0, mods: Mods::default(), call: Call::Unbind, slow: false, silent: false });
     }
     let on_wire: Vec<(usize, Req)> = steps.iter().enumerate().filter_map(|(i, s)| expected(s).map(|r| (i, r))).collect();
     let slow: Vec<bool> = on_wire.iter().map(|(i, _)| steps[*i].slow).collect();
+    let silent: Vec<bool> = on_wire.iter().map(|(i, _)| steps[*i].silent).collect();
     let st = steps.clone();
     let out = sim::run_sim(case.sched, async move {
         let conn = sim::connect();
@@ -305,6 +310,10 @@ pub fn check(case: &Case, obs: &mut Obs) -> Result<(), Fail> {
                     Recv::Msg(m, _, raw) => {
                         let idx = log.len();
                         if let Ok(m) = &m {
+                            if silent.get(idx).copied().unwrap_or(false) {
+                                log.push((Ok(m.clone()), raw));
+                                continue;
+                            }
                             if let Some(tag) = m.req.response_tag() {
                                 if slow.get(idx).copied().unwrap_or(false) {
                                     tokio::time::sleep(Duration::from_secs(3600)).await;
@@ -422,6 +431,10 @@ pub fn check(case: &Case, obs: &mut Obs) -> Result<(), Fail> {
             if o.outcome == "Timeout" && !timed {
                 fail!("c02:timeout-leak", "step {} ({:?}) has no timeout of its own but timed out: an earlier with_timeout leaked", i, short(&format!("{:?}", s.call)));
             }
+            if s.silent {
+                ensure!(o.outcome == "Timeout", "c02:silent-no-timeout", "step {} has a timeout and the server stays silent, but it ended with {}", i, o.outcome);
+                continue;
+            }
             ensure!(o.outcome == "ok", "c02:op-failed", "step {} ({}) failed with {} against a server that answers success", i, short(&format!("{:?}", s.call)), o.outcome);
             if let Call::Search { .. } = &s.call {
                 ensure!(o.entries_seen == 1, "c02:search-entries", "step {}: {} entries seen, 1 sent", i, o.entries_seen);
@@ -453,6 +466,12 @@ pub fn check(case: &Case, obs: &mut Obs) -> Result<(), Fail> {
         if s.slow && i > 0 {
             obs.label("slow-after-op");
         }
+        if s.silent {
+            obs.label("op-times-out");
+            if i + 1 < steps.len() {
+                nt = true;
+            }
+        }
         match &s.call {
             Call::Add { attrs, .. } if attrs.len() >= 2 => nt = true,
             Call::Modify { mods, .. } if mods.len() >= 2 => nt = true,
@@ -479,7 +498,7 @@ pub fn property() -> Property {
     Property {
         id: "C02",
         level: "exploration",
-        rule: "generated histories of 1-10 operations on 2 handles over the whole Ldap surface (simple bind, SASL EXTERNAL, search/streaming_search/streaming_search_with, add, compare, delete, modify with all four Mod kinds, modifyDN +-newSuperior, extended with arbitrary OID/value, abandon of any id, unbind last), arguments: arbitrary Unicode DNs and strings (empty, NUL, >127 and >65535 bytes), byte values incl. invalid UTF-8, attribute lists of 0-300 elements, value sets of 0-50, limits over 0..2^31-1, valid filters from the C08 generator; before each op independently with_controls (0-3 raw controls), with_timeout, with_search_options - also in front of non-search ops and ops that fail locally (empty Add value set, bad filter); the server answers success (some answers delayed one virtual hour to expose a leaked timeout). Oracle: the client->server byte log, framed and decoded by the harness's strict RFC 4511 decoder, is exactly one message per issued op, field-for-field equal to the request model built from the arguments (SET OF as multiset), id in 1..2^31-1 and equal to last_id()/stream handle's last_id(), controls exactly those set immediately before that op. Non-trivial: an op with >=1 control, a list argument with >=2 elements, a modifier before a different kind of op or before a locally failing op. Distinct = debug rendering of the history.",
+        rule: "generated histories of 1-10 operations on 2 handles over the whole Ldap surface (simple bind, SASL EXTERNAL, search/streaming_search/streaming_search_with, add, compare, delete, modify with all four Mod kinds, modifyDN +-newSuperior, extended with arbitrary OID/value, abandon of any id, unbind last), arguments: arbitrary Unicode DNs and strings (empty, NUL, >127 and >65535 bytes), byte values incl. invalid UTF-8, attribute lists of 0-300 elements, value sets of 0-50, limits over 0..2^31-1, valid filters from the C08 generator; before each op independently with_controls (0-3 raw controls), with_timeout, with_search_options - also in front of non-search ops and ops that fail locally (empty Add value set, bad filter); the server answers success (some answers delayed one virtual hour to expose a leaked timeout; some timed operations are never answered so that they time out and the following operation shows whether their modifiers were consumed). Oracle: the client->server byte log, framed and decoded by the harness's strict RFC 4511 decoder, is exactly one message per issued op, field-for-field equal to the request model built from the arguments (SET OF as multiset), id in 1..2^31-1 and equal to last_id()/stream handle's last_id(), controls exactly those set immediately before that op. Non-trivial: an op with >=1 control, a list argument with >=2 elements, a modifier before a different kind of op or before a locally failing op. Distinct = debug rendering of the history.",
         assumptions: &["harness strict request decoder (src/model.rs)", "limits and ids stay in the RFC's 0..maxInt range (negative integers are C07's business)", "search() does not expose its message id; id equality is checked for every other call"],
         lanes: vec![Box::new(PLane { name: "histories", cases: |t| t.pick(2_000, 25_000), strat, check })],
         workers: (8, 16),
